@@ -234,8 +234,14 @@ pub fn judge(cfg: &Cfg, log: &[Rec], stats: &crate::sim::SimStats) -> Report {
     }
     // nobody waits forever: after the last external event and the fair drain phase every
     // surviving caller has resolved
-    if stats.hit_poll_cap {
-        let stuck: Vec<u64> = stats.states.iter().filter(|(_, s)| *s == ActorState::Running).map(|(r, _)| *r).collect();
+    // (the same holds when the simulation ends because nobody is runnable any more: a waiter that
+    // returned Pending without arranging a wake-up is never polled again)
+    {
+        let answered: std::collections::HashSet<u64> = log.iter().filter_map(|r| match &r.ev {
+            Ev::Resolve { req, .. } | Ev::ActorPanic { req, .. } => Some(*req),
+            _ => None,
+        }).collect();
+        let stuck: Vec<u64> = stats.states.iter().filter(|(r, s)| *s == ActorState::Running && !answered.contains(r)).map(|(r, _)| *r).collect();
         if !stuck.is_empty() {
             rep.violate(
                 "C11:caller-stuck",
